@@ -77,7 +77,7 @@ def main():
         })
     m = {
         "version": 1,
-        "setup_cmd": "cd /verif/harness && ( [ -f Cargo.lock ] || cp /repo/Cargo.lock Cargo.lock ) && CARGO_NET_OFFLINE=true cargo build --offline --profile verif && CARGO_NET_OFFLINE=true cargo build --offline --profile release && CARGO_NET_OFFLINE=true CARGO_TARGET_DIR=/verif/harness/target-b64 cargo build --offline --profile verif --features b64bytes,testable",
+        "setup_cmd": "cd /verif/harness && ( [ -f Cargo.lock ] || cp /repo/Cargo.lock Cargo.lock ) && CARGO_NET_OFFLINE=true cargo build --offline --profile verif && CARGO_NET_OFFLINE=true cargo build --offline --profile release && CARGO_NET_OFFLINE=true CARGO_TARGET_DIR=/verif/harness/target-b64 cargo build --offline --profile verif --features b64bytes,testable && CARGO_NET_OFFLINE=true cargo build --offline --profile dev0",
         "hooks": {
             "guard": "passkey_rs_verif",
             "enable": "none needed: all observation points are caller-supplied traits (CredentialStore, UserValidationMethod, EffectiveTLDProvider) and public return values; RUSTFLAGS=--cfg passkey_rs_verif is reserved and unused",
@@ -88,7 +88,7 @@ def main():
         "engines": [{
             "name": "vdrive", "path": "/verif/harness",
             "serves_properties": sorted(built),
-            "kind_free_text": "Rust harness driving the real library through its public API with instrumented collaborators (recording/fault-injecting/yielding store, scripted user validation, logging TLD provider), monitors/oracles per property, step/cancel executor, DFS poll-order scheduler, crash-isolating workers with counting allocator; built natively, in release, with the library's alternative byte-string serialisation feature, under ASan/TSan, and run under Miri and valgrind memcheck by ./check",
+            "kind_free_text": "Rust harness driving the real library through its public API with instrumented collaborators (recording/fault-injecting/yielding store, scripted user validation, logging TLD provider), monitors/oracles per property, step/cancel executor, DFS poll-order scheduler, crash-isolating workers with counting allocator; built natively, in release, with the library's alternative byte-string serialisation and test-support features, with the library crates unoptimised (dev0), under ASan/TSan, and run under Miri and valgrind memcheck by ./check",
         }],
         "checks": checks,
         "not_applicable": na,
